@@ -246,13 +246,14 @@ func init() {
 	properties["C19"] = propSpec{
 		Level: "exploration",
 		Plan: []planEntry{
+			{Engine: "A", Scenario: "snapshot-vs-install", Params: "seg=1024", Quick: 8, Thorough: 80},
 			{Engine: "A", Scenario: "general", Quick: 16, Thorough: 200},
 			{Engine: "A", Scenario: "snapshot", Quick: 12, Thorough: 150},
 			{Engine: "A", Scenario: "member", Quick: 6, Thorough: 80},
 			{Engine: "A", Scenario: "uncommitted-config", Params: "seg=1024", Quick: 9, Thorough: 90},
 		},
 		Rule:       "directed scenario (isolated leader appends a configuration entry it never commits; heal / restart / installation) and seeded live-cluster runs; GetInfo polled on every node twice per heartbeat timeout (public API) and the same inequalities asserted on the node's own fields at every step of its main loop; non-trivial if at least 100 status reports were compared pairwise and at least 1000 steps were checked; distinct = distinct abstract trace",
-		Nontrivial: all(ge("status-report-pairs", 100), ge("steps", 1000)),
+		Nontrivial: either(all(ge("status-report-pairs", 100), ge("steps", 1000)), all(ge("fault:snapshot-held-after-capture", 1), ge("snapshot-installs:success", 1))),
 		MinQuick:   20, MinThorough: 200,
 		Counters:    []string{"status-reports", "status-report-pairs", "steps", "commit-advances", "truncations", "log-resets", "compactions", "config-changes"},
 		Prefixes:    []string{"snapshot-installs:"},
